@@ -92,20 +92,24 @@ theorem firstChange_le_now (startS atoMS tsbdMS nowMS T : Nat) (f : Nat × Nat) 
   · exact hnow
 
 /-- **publishTime (both ends) is never later than the request instant.** -/
-theorem c05_publish_le_now (startS nowMS atoMS tsbdMS T : Nat) (lsi : LastSeg) (entries : List (Nat × Nat))
+theorem c05_publish_le_now (startS nowMS atoMS tsbdMS T : Nat) (startNr : Int) (lsi : LastSeg) (entries : List (Nat × Nat))
     (hnow : startS * 1000 ≤ nowMS) (hended : (lsi.start + lsi.dur) * 1000 ≤ (nowMS - startS * 1000 + atoMS) * T) :
-    publishMS startS atoMS tsbdMS nowMS T lsi entries ≤ nowMS := by
+    publishMS startS atoMS tsbdMS nowMS T startNr lsi entries ≤ nowMS := by
   unfold publishMS
   have h1 := c05_pt_le_now startS nowMS atoMS T lsi hnow hended
+  split
+  · exact h1
   cases entries.head? with
   | none => exact h1
   | some f => exact Nat.max_le.mpr ⟨h1, firstChange_le_now startS atoMS tsbdMS nowMS T f hnow⟩
 
 /-- … and not before the stream start. -/
-theorem c05_publish_ge_start (startS nowMS atoMS tsbdMS T : Nat) (lsi : LastSeg) (entries : List (Nat × Nat)) :
-    startS * 1000 ≤ publishMS startS atoMS tsbdMS nowMS T lsi entries := by
+theorem c05_publish_ge_start (startS nowMS atoMS tsbdMS T : Nat) (startNr : Int) (lsi : LastSeg) (entries : List (Nat × Nat)) :
+    startS * 1000 ≤ publishMS startS atoMS tsbdMS nowMS T startNr lsi entries := by
   unfold publishMS
   have h1 := c05_pt_ge_start startS atoMS T lsi
+  split
+  · exact h1
   cases entries.head? with
   | none => exact h1
   | some f => exact Nat.le_trans h1 (Nat.le_max_left _ _)
@@ -145,7 +149,7 @@ theorem avail_strict (startS atoMS T e₁ e₂ : Nat) (hT : 0 < T) (hlt : e₁ +
 
 /-- non-vacuity: 2 s segments at 90 kHz, tsbd 5 s: at 11.3 s the first entry (ends at 6 s) became first at 11.0 s,
 later than the last segment's availability at 10.0 s — the case in which the publishTime used to be stale -/
-example : publishMS 0 0 5000 11300 90000 ⟨720000, 180000, 4⟩ [(360000, 180000), (540000, 180000), (720000, 180000)] = 11000 ∧
+example : publishMS 0 0 5000 11300 90000 2 ⟨720000, 180000, 4⟩ [(360000, 180000), (540000, 180000), (720000, 180000)] = 11000 ∧
     lastSegAvailMS 0 0 90000 ⟨720000, 180000, 4⟩ = 10000 := by decide
 
 /-- After the configured stop time the MPD is static with the duration stop − start. -/
